@@ -245,7 +245,15 @@ func VerifGenIntRange(s *VerifStream, min int64, max int64, bias bool) (int64, b
 func VerifGenFloatRange(s *VerifStream, min float64, max float64, signifBits uint) (bool, int32, uint64, uint64) {
 	return genFloatRange(s.s, min, max, signifBits)
 }
-func VerifDie(s *VerifStream, weights []int) int { return newLoadedDie(weights).roll(s.s) }
+func VerifFloat32FromParts(sign bool, e int32, si uint64, sf uint64) float32 {
+	return float32FromParts(sign, e, si, sf)
+}
+func VerifFloat64FromParts(sign bool, e int32, si uint64, sf uint64) float64 {
+	return float64FromParts(sign, e, si, sf)
+}
+func VerifUfloat32Parts(f float32) (int32, uint64, uint64) { return ufloat32Parts(f) }
+func VerifUfloat64Parts(f float64) (int32, uint64, uint64) { return ufloat64Parts(f) }
+func VerifDie(s *VerifStream, weights []int) int           { return newLoadedDie(weights).roll(s.s) }
 
 type VerifRepeat struct{ r *repeat }
 
